@@ -449,6 +449,70 @@ func runC04(env *Env) {
 			rep.Violate("C04-choice", cs, fmt.Sprintf("%d instances were not routed by their own conditions, e.g. %v", wrong, first.Load()))
 		}
 	}
+	// instances one after the other whose variables differ in which names exist and of which type: each is routed by
+	// its own variables alone, whatever the instances before it had
+	{
+		p := &Prog{}
+		p.Node("start", "start")
+		x := p.Node("xor", "S")
+		for i := 0; i < 3; i++ {
+			p.Node("end", fmt.Sprintf("e%d", i))
+		}
+		p.Flow("start", "S", "")
+		p.Flow("S", "e0", "zzVip == true")
+		p.Flow("S", "e1", `zzTier == "gold"`)
+		x.Default = p.Flow("S", "e2", "").ID
+		xmlText := p.XML("")
+		type kind struct {
+			name string
+			vars map[string]any
+			want string
+		}
+		kinds := []kind{
+			{"no variables", map[string]any{}, "e2"},
+			{"zzVip = true", map[string]any{"zzVip": true}, "e0"},
+			{"zzTier = 5", map[string]any{"zzTier": 5}, "e2"},
+			{"zzTier = gold", map[string]any{"zzTier": "gold"}, "e1"},
+			{"zzVip = false, zzTier = gold", map[string]any{"zzVip": false, "zzTier": "gold"}, "e1"},
+		}
+		order := []int{0, 1, 0, 2, 3, 0, 4, 2, 1, 3, 0, 2, 4, 0, 3, 1, 2, 0}
+		errsOf := map[int]int{}
+		for step, ki := range order {
+			if rep.Saturated() {
+				break
+			}
+			k := kinds[ki]
+			cs := fmt.Sprintf("instances one after the other with different variables: instance %d has %s (the ones before: %v)", step, k.name, order[:step])
+			env.Current(cs)
+			defs, err := ParseDefs(xmlText)
+			must(err)
+			in, err := StartInst(defs, InstOpt{Vars: k.vars})
+			must(err)
+			rep.Evaluations++
+			rep.Nontrivial++
+			rep.Count("instances_with_different_variables")
+			in.WaitCease(tmoStep)
+			l := in.Log()
+			reached, errs := []string{}, 0
+			for _, e := range l {
+				if e.K == "visit" && strings.HasPrefix(e.N, "e") {
+					reached = append(reached, e.N)
+				}
+				if e.K == "error" {
+					errs++
+				}
+			}
+			if len(reached) != 1 || reached[0] != k.want {
+				rep.Violate("C04-choice", cs, fmt.Sprintf("reached %v, expected [%s]; log: %s", reached, k.want, logString(l)))
+			} else if prev, seen := errsOf[ki]; seen && prev != errs {
+				rep.Violate("C04-choice", cs, fmt.Sprintf("%d error traces, %d when an instance with the same variables ran before; log: %s", errs, prev, logString(l)))
+			}
+			if _, seen := errsOf[ki]; !seen {
+				errsOf[ki] = errs
+			}
+			in.Close()
+		}
+	}
 	env.WriteReport(rep)
 }
 
